@@ -80,6 +80,7 @@ func main() {
 	timeLimit := flag.Duration("time-limit", 0, "stop exploring after this long")
 	maxViol := flag.Int("max-violations", 3, "models kept per violated obligation")
 	solverLog := flag.String("solver-log", "", "write solver input to <prefix>.<worker>.smt2")
+	modfile := flag.String("modfile", "", "alternative go.mod (dependency stubs as replace directives)")
 	buildAll := flag.Bool("build-all", false, "build SSA for all packages up front")
 	flag.Var(&overlays, "overlay", "virtual=real overlay file mapping (repeatable)")
 	flag.Var(&params, "param", "name=int harness parameter (repeatable)")
@@ -126,7 +127,7 @@ func main() {
 		Mode:       packages.LoadAllSyntax,
 		Dir:        *repo,
 		Overlay:    ov,
-		BuildFlags: []string{"-tags=verif"},
+		BuildFlags: buildFlags(*modfile),
 		Env: append(os.Environ(), "GOFLAGS=-mod=mod", "GOPROXY=off", "GOSUMDB=off", "GOTOOLCHAIN=local",
 			"PATH=/opt/veriftools/go1.26.8/bin:"+os.Getenv("PATH")),
 	}
@@ -223,6 +224,14 @@ func main() {
 	for _, u := range res.Unsupported {
 		fmt.Fprintln(os.Stderr, "  UNSUPPORTED", u)
 	}
+}
+
+func buildFlags(modfile string) []string {
+	f := []string{"-tags=verif"}
+	if modfile != "" {
+		f = append(f, "-modfile="+modfile)
+	}
+	return f
 }
 
 func repoState(repo string) string {
